@@ -127,7 +127,7 @@ def judge(case, out):
 
 
 def sig_of(case, out, why):
-    return {"op": case.split()[0], "kind": why.split(":")[0]}
+    return {"op": K.operands(case)[0], "kind": why.split(":")[0]}
 
 
 BIN_USTR = ["find", "ends_with", "match", "join"]
@@ -205,22 +205,120 @@ def gen_cases(ctx):
     return cases
 
 
+LONG_LENS = [254, 255, 256, 257, 300]
+
+
+def gen_placed(ctx):
+    """operand ADDRESS and LENGTH as explored dimensions (K.AT placement: operands are sub-slices at chosen start
+    alignments between chosen surrounding bytes): a separator / needle occurrence / first difference / suffix mismatch at
+    EVERY position of operands of every length up to 40 (thorough 80) and of lengths around NAME_MAX; paths built around
+    one long component (NAME_MAX / PATH_MAX boundaries)"""
+    quick = ctx.tier == "quick"
+    r = ctx.rng
+    pool = K.Pool(r, [0x61, 0x62, 0x2E, 0xFF, 0x01])       # no separator, no NUL
+    ab = K.Pool(r, [0x61, 0x62])
+    asc = K.Pool(r, [0x61, 0x62, 0x2E, 0x01])
+    top = 40 if quick else 80
+    cases = []
+
+    def emit(op, a, b=None, ka=None, kb=None):
+        ka = r.below(16) if ka is None else ka
+        kb = r.below(16) if kb is None else kb
+        cases.append(K.AT(ka, kb, r.below(4)) + op + " " + K.hx(a) + ("" if b is None else " " + K.hx(b)))
+
+    # (a) parent_path / path_file_name: a separator at every position, alone and with a second one
+    for n in list(range(1, top + 1)) + LONG_LENS:
+        for p in range(n):
+            for ka in (K.ALL16 if n <= 16 else [r.below(16)]):
+                c = bytearray(pool.take(n))
+                c[p] = SL
+                if r.chance(1, 2):
+                    c[r.choice([max(p - 1, 0), min(p + 1, n - 1), r.below(n)])] = SL
+                for op in ("parent", "file_name"):
+                    emit(op, bytes(c) + b"\0", ka=ka)
+    # (b) one long component behind / without a prefix
+    for c in K.long_component_paths(r):
+        for op in ("parent", "file_name"):
+            emit(op, c + b"\0")
+    # (c) find / find_buf: the needle planted at every position, sometimes behind a near miss; absent needles
+    for n in list(range(1, top + 1)) + LONG_LENS:
+        for p in range(n):
+            ms = [m for m in (1, 2, 3, 8, 9, 17) if p + m <= n]
+            if n > top:
+                ms = [r.choice(ms)]
+            for m in ms:
+                nd = r.bytes(m, [0x61, 0x62, 0x63])
+                h = bytearray(ab.take(n))
+                h[p:p + m] = nd
+                if m > 1 and p >= m and r.chance(1, 2):
+                    q = r.below(p - m + 1)
+                    h[q:q + m] = nd[:-1] + bytes([nd[-1] ^ 3])       # near miss before the occurrence
+                if r.chance(1, 6):
+                    nd = nd[:-1] + b"z"                              # not in the haystack at all
+                h = bytes(h)
+                emit("find", h + b"\0", nd + b"\0")
+                emit("find_buf", h + b"\0", nd)
+    # (d) ends_with: true suffixes of every length, and a mismatch at every position of the suffix
+    for m in list(range(1, top + 1)) + LONG_LENS:
+        for q in range(m + 1):
+            pre = pool.take(r.choice([0, 1, r.below(20), r.range(250, 260)]))
+            suf = bytearray(pool.take(m))
+            h = pre + bytes(suf)
+            if q < m:
+                suf[q] ^= 3
+            emit("ends_with", h + b"\0", bytes(suf) + b"\0")
+    # (e) match_up_to / match_up_to_str: the first difference at every position, and one operand a prefix of the other
+    for n in list(range(1, top + 1)) + LONG_LENS:
+        for k in range(n + 1):
+            a = asc.take(n)
+            t = r.below(3)
+            if t == 0:
+                b = a[:k]
+            elif t == 1:
+                b = a[:k] + bytes([(a[k] if k < n else 0x61) ^ 3]) + asc.take(r.below(6))
+            else:
+                b = a[:k] + bytes([(a[k] if k < n else 0x61) ^ 3]) + a[k + 1:]
+            emit("match", a + b"\0", b + b"\0")
+            emit("match_str", a + b"\0", b)
+            emit("match", b + b"\0", a + b"\0")
+    # (f) joins of long operands, NAME_MAX-sized pieces on either side of the boundary
+    paths = K.long_component_paths(r)
+    for _ in range(150 if quick else 1500):
+        a, b = r.choice(paths), r.choice(paths)
+        a = a[:r.choice([len(a), 254, 255, 256])] + r.choice([b"", b"/"])
+        b = r.choice([b"", b"/"]) + b[:r.choice([len(b), 254, 255, 256])]
+        emit("join", a + b"\0", b + b"\0")
+        if all(x < 0x80 for x in b):
+            emit("join_fmt", a + b"\0", b)
+    return cases
+
+
 def run(ctx):
     ctx.rule = ("cases = all pairs of strings of length <= 3 (thorough 4) over {a,b,/,.} through find/find_buf/ends_with/match_up_to/"
                 "match_up_to_str/path_join/path_join_fmt, all strings of length <= 5 (8) through parent_path/path_file_name, pairs over "
                 "{a,NUL} (ill-formed operands, NUL needles), random haystacks up to 5000 bytes with needles cut from them / perturbed in "
                 "the last byte / at the very end / longer than the haystack; every operand sits directly before a PROT_NONE page; "
-                "distinct_nontrivial = distinct (operation, outcome kind, operand lengths capped at 3, operand ends in NUL) classes")
+                "PLACED stream (`at <n>`: operands are sub-slices at chosen start addresses mod 16 between chosen surrounding bytes): for "
+                "every length 1..40 (thorough 80) and 254..257, 300 — a separator at every position (alone / with a second one) through "
+                "parent/file_name (all 16 alignments up to length 16), a needle of 1/2/3/8/9/17 bytes planted at every position (with near "
+                "misses, absent needles) through find/find_buf, a suffix mismatch at every position through ends_with, the first "
+                "difference at every position through match_up_to/_str; paths around one component of 1..4097 bytes (NAME_MAX/PATH_MAX "
+                "boundaries) behind 9 prefixes through parent/file_name/join/join_fmt; "
+                "distinct_nontrivial = distinct (operation, outcome kind, operand lengths capped at 3 or flagged >= 255, operand ends in NUL, placed) classes")
     ctx.assumptions += [
         "Model/UnixStr.lean describes rusl/src/string/unix_str.rs (checked by this run's correspondence, debug and release builds)",
         "out-of-bounds reads are observed as SIGSEGV on operands placed at the end of a mapping followed by a PROT_NONE page (over-reads only; no operation computes a negative offset: proved on the model)",
         "find/find_buf search the raw bytes (terminator included); for NUL-free needles that equals searching the content (proved: find_eq_naive, find_buf_content)",
         "parent_path splits at the last separator, so the parent of a path with a trailing slash is the path without it (the doc comment's /home/gramar/code/ example, which is never executed, says otherwise)",
         "a formatted payload containing NUL is outside path_join_fmt's definition",
+        "the model has no addresses: independence of the results from operand start alignment / surrounding bytes / sub-slicing is OBSERVED "
+        "by the placed stream (both operands at independently chosen alignments mod 16, 4 surrounding fills), not proved; placed operands "
+        "are followed by up to 15 readable bytes (the unplaced streams keep the exact PROT_NONE placement)",
     ]
     ok = C.lean_prove(ctx, "TinyVerif.Props.C11", drivers=["drv_c10"])
     cases = gen_cases(ctx)
     K.run_streams(ctx, "search-path", cases, judge, sig_of)
+    K.run_streams(ctx, "search-path-placed", gen_placed(ctx), judge, sig_of)
     exe = K.build(ctx, False)
     if exe is None:
         return
